@@ -247,7 +247,7 @@ def _check(cx):
                         if tests and not any(k[1] == 'BAD' for k in rj):
                             filt = tests
                     res.append(Finding(ID, 'J4', label, bool(filt), 'closed subscribers are filtered out of the terminal broadcast' if filt else
-                                       'terminal broadcast does not skip closed subscribers', fn['span']))
+                                       'the terminal broadcast does not visit every subscriber while skipping exactly the closed ones (it must filter on p_is_closed, not stop at or ignore closed entries)', fn['span']))
             fn = F.impl_fn(im, 'is_finished')
             res.append(_is_none_answer(cx, fn, LIVE))
         elif tr == 'subscription::Subscription':
@@ -303,6 +303,11 @@ def _check(cx):
                                     srcs.add(e_)
                     consumers = [n for n in g.nodes if n['kind'] == 'call' and not is_transparent(n['name']) and n['name'].rsplit('::', 1)[-1] not in ('drop', 'len', 'is_empty', 'unwrap', 'expect', 'as_mut', 'as_ref', 'deref', 'deref_mut', 'as_mut_slice', 'borrow_mut', 'unwrap_unchecked')
                                  and any(any(strip(e_) in {strip(s_) for s_ in srcs} for e_ in walk(a_)) for a_ in n['args']) and n['value'] not in srcs]
+                    # the move must carry every waiting subscriber, in order: adaptors that drop or reorder elements are consumers too
+                    lossy = [n for n in g.nodes if n['kind'] == 'call' and n['name'].startswith('std::iter::Iterator::') and
+                             n['name'].rsplit('::', 1)[-1] in ('filter', 'filter_map', 'take_while', 'skip_while', 'skip', 'take', 'step_by', 'rev', 'map_while') and
+                             n['args'] and recv_class(n['args'][0]) == 'self.' + WAIT]
+                    consumers = consumers + lossy
                     linear = len(consumers) <= len(moves)
                     ok = bool(moves) and atomic and linear
                     if bool(moves) and atomic and not linear:
